@@ -48,6 +48,11 @@ class OptCase:
             kw = {}
             for k, v in self.gqr.items():
                 kw[k] = v.copy() if isinstance(v, np.ndarray) else v
+            if self.meta.get("np_ints"):
+                # counts that come out of numpy (np.arange, argmax, …) are numpy integers, not Python ints
+                for k_ in ("n_sensors", "n_const_sensors"):
+                    if isinstance(kw.get(k_), int):
+                        kw[k_] = (np.int64 if self.meta["np_ints"] == 64 else np.int32)(kw[k_])
             if self.meta.get("omit_all_sensors") and kw.get("constraint_option") == "predetermined":
                 kw.pop("all_sensors", None)       # `predetermined` never reads the unconstrained ranking: the keyword is optional
             return GQR(), kw
@@ -73,7 +78,13 @@ class OptCase:
             # the object's earlier life: a fit on other data with the same keywords, the natural two-stage use of GQR (first
             # unconstrained, then constrained), or an earlier fit under another constraint option
             kw0 = {k_: (v.copy() if isinstance(v, np.ndarray) else v) for k_, v in kw.items()}
-            if self.kind == "gqr" and pf == "unconstrained":
+            if self.kind == "gqr" and not kw.get("constraint_option") and pf in ("other_option", "unconstrained") and n >= 2:
+                # an unconstrained GQR fit on an object that was used WITH a constraint before: GQR keeps its keywords, so the
+                # judged fit says constraint_option="" explicitly (nothing of the earlier rule may survive)
+                kw0 = {"idx_constrained": np.arange(max(1, n // 2)), "n_sensors": min(k, 2), "n_const_sensors": 0,
+                       "all_sensors": np.arange(n), "constraint_option": ["max_n", "exact_n", "predetermined"][n % 3]}
+                kw = dict(kw, constraint_option="")
+            elif self.kind == "gqr" and pf == "unconstrained":
                 kw0 = {}
             elif self.kind == "gqr" and pf == "other_option" and kw0.get("constraint_option"):
                 opts = [o for o in ("max_n", "exact_n", "predetermined") if o != kw0["constraint_option"]]
